@@ -117,6 +117,15 @@ Redef ==
    CaseOf("C07/redef/multi-none-new", <<Def(<<"a", "b">>, <<I("1"), I("2")>>), Def(<<"a", "b">>, <<I("3"), I("4")>>)>>),
    CaseOf("C07/redef/multi-one-new", <<Def(<<"a", "b">>, <<I("1"), I("2")>>), Def(<<"a", "c">>, <<I("3"), I("4")>>), PrintS(<<Var("a"), Var("c")>>)>>),
    CaseOf("C07/redef/var-multi-one-old", <<Def1("a", I("1")), VarDef(<<"a", "b">>, "int", <<>>)>>),
+   \* inside a function a short definition with at least one new name declares all its names there: a global of the same name is untouched
+   CaseOf("C07/redef/multi-shadows-global", <<Def1("count", I("1")), Func("f", <<>>, <<>>, <<Def(<<"count", "extra">>, <<I("40"), I("2")>>), Print1(Bin("+", Var("count"), Var("extra")))>>), ExprS(CallE("f", <<>>)), Print1(Var("count"))>>),
+   CaseOf("C07/redef/multi-shadows-global-call", <<Def1("count", I("1")), Func("pair", <<>>, <<"int", "int">>, <<RetS(<<I("8"), I("9")>>)>>),
+                                                   Func("f", <<>>, <<>>, <<Def(<<"count", "step">>, <<CallE("pair", <<>>)>>), Asg1("count", Bin("+", Var("count"), Var("step"))), Print1(Var("count"))>>),
+                                                   ExprS(CallE("f", <<>>)), Print1(Var("count")), ExprS(CallE("f", <<>>)), Print1(Var("count"))>>),
+   CaseOf("C07/redef/multi-shadows-global-type", <<Def1("a", I("1")), Func("f", <<>>, <<>>, <<Def(<<"a", "b">>, <<StrL("s"), I("2")>>), PrintS(<<Var("a"), Var("b")>>)>>), ExprS(CallE("f", <<>>)), Print1(Var("a"))>>),
+   CaseOf("C07/redef/multi-shadows-global-in-block", <<Def1("a", I("1")), Func("f", <<>>, <<>>, <<If1(BoolL(TRUE), <<Def(<<"a", "b">>, <<I("5"), I("2")>>), PrintS(<<Var("a"), Var("b")>>)>>), Print1(Var("a"))>>), ExprS(CallE("f", <<>>)), Print1(Var("a"))>>),
+   CaseOf("C07/redef/multi-assigns-global-at-top", <<Def1("a", I("1")), Def(<<"a", "b">>, <<I("5"), I("2")>>), PrintS(<<Var("a"), Var("b")>>)>>),
+   CaseOf("C07/redef/multi-assigns-param", <<Func("f", <<Param("s", "string")>>, <<"string">>, <<Def(<<"s", "c">>, <<Bin("+", Var("s"), StrL("!")), I("1")>>), RetS(<<Bin("+", Var("s"), Itoa(Var("c")))>>)>>), Print1(CallE("f", <<StrL("x")>>))>>),
    CaseOf("C07/caller-locals", <<Func("callee", <<>>, <<>>, <<Print1(Var("loc"))>>), Func("caller", <<>>, <<>>, <<Def1("loc", I("1")), ExprS(CallE("callee", <<>>))>>), ExprS(CallE("caller", <<>>))>>),
    CaseOf("C07/caller-params", <<Func("callee", <<>>, <<>>, <<Print1(Var("p"))>>), Func("caller", <<Param("p", "int")>>, <<>>, <<ExprS(CallE("callee", <<>>))>>), ExprS(CallE("caller", <<I("1")>>))>>),
    CaseOf("C07/missing-return/none", <<Func("f", <<>>, <<"int">>, <<Print1(I("1"))>>)>>),
